@@ -10,7 +10,10 @@ G:    (a) every catalogue operator tagged `stream` on instrumented sources of TW
           pulls for k = 1..6 must be within the bound TLC computed (equality = model level) and equal at both lengths.
 V:    random deeper pipelines recorded as pull/yield event sequences, validated by LazyTrace.
 """
+import contextlib
+import io
 import itertools
+import os
 import json
 import random
 
@@ -185,7 +188,13 @@ def check_consumers(chk):
     import petl as etl
     consumers = [('look(limit=3)', lambda v: str(etl.look(v, limit=3)), 5), ('head(3)', lambda v: list(iter(etl.head(v, 3))), 4),
                  ('islice(4)', lambda v: list(itertools.islice(v, 5)), 5), ('repr', lambda v: repr(etl.wrap(v)), 8),
-                 ('see(limit=2)', lambda v: str(etl.see(v, limit=2)), 4), ('nthrow', lambda v: etl.wrap(v)[3], 4)]
+                 ('see(limit=2)', lambda v: str(etl.see(v, limit=2)), 4), ('nthrow', lambda v: etl.wrap(v)[3], 4),
+                 ("look(limit=3, style='minimal')", lambda v: str(etl.look(v, limit=3, style='minimal')), 5),
+                 ("look(limit=3, style='simple')", lambda v: str(etl.look(v, limit=3, style='simple')), 5),
+                 ("look(default limit, style='minimal')", lambda v: str(etl.look(v, style='minimal')), 7),
+                 ('lookstr(limit=2)', lambda v: etl.lookstr(v, limit=2), 4), ("see(limit=2, style)", lambda v: str(etl.see(v, limit=2, index_header=True)), 4),
+                 ('look(truncate, vrepr)', lambda v: str(etl.look(v, limit=3, truncate=4, vrepr=str, width=30)), 5),
+                 ('tohtml-ish display limit', lambda v: etl.wrap(v)._repr_html_(), 8)]
     pipe = [['map', 0], ['filter', 2], ['map', 1]]
     for name, consume, rows in consumers:
         pulls = []
@@ -200,6 +209,90 @@ def check_consumers(chk):
         if pulls[0] != pulls[1] or pulls[1] > bound:
             chk.violation({'op': name, 'kind': 'consumer'}, '%s over a lazy pipeline pulled %r data rows at lengths %r (bound %d, must not depend on length)'
                           % (name, pulls, LENGTHS, bound), {'kind': 'consumer', 'name': name})
+
+
+class _CountRaw(io.FileIO):
+    def __init__(self, path, counter):
+        io.FileIO.__init__(self, path, 'rb')
+        self._counter = counter
+
+    def readinto(self, b):
+        n = io.FileIO.readinto(self, b)
+        self._counter[0] += n or 0
+        return n
+
+    def readall(self):
+        d = io.FileIO.readall(self)
+        self._counter[0] += len(d)
+        return d
+
+
+class CountingSource(object):
+    """A petl source (has .open) over a real file that counts the bytes actually read from it."""
+
+    def __init__(self, path):
+        self.path = path
+        self.counter = [0]
+        self.opens = 0
+
+    @contextlib.contextmanager
+    def open(self, mode='rb'):
+        self.opens += 1
+        f = io.BufferedReader(_CountRaw(self.path, self.counter))
+        try:
+            yield f
+        finally:
+            f.close()
+
+
+def check_extractors(chk, tmp):
+    """The extractors: constructing the view reads nothing; k rows cost a number of BYTES that does not depend on the
+    length of the file (same count for a 300-row and a 30000-row file) and stays within a few buffers."""
+    import petl as etl
+    sizes = (3000, 60000)
+    files = {}
+    for n in sizes:
+        t = [['f', 'g', 'h']] + [[i, u'v%d' % i, u'text %d' % (i * 7)] for i in range(n)]
+        etl.tocsv(t, os.path.join(tmp, 'x%d.csv' % n))
+        etl.tocsv(t, os.path.join(tmp, 'x%d_16.csv' % n), encoding='utf-16')
+        etl.totsv(t, os.path.join(tmp, 'x%d.tsv' % n))
+        etl.topickle(t, os.path.join(tmp, 'x%d.p' % n))
+        etl.tojson(t, os.path.join(tmp, 'x%d.jsonl' % n), lines=True)
+        etl.totext(t, os.path.join(tmp, 'x%d.txt' % n), template=u'{f} {g} {h}\n')
+    ex = [('fromcsv', 'csv', lambda s: etl.fromcsv(s)), ('fromcsv(header=)', 'csv', lambda s: etl.fromcsv(s, header=['a', 'b', 'c'])),
+          ('fromcsv(utf-16)', '_16.csv', lambda s: etl.fromcsv(s, encoding='utf-16')),
+          ('fromcsv(errors=ignore, delimiter)', 'csv', lambda s: etl.fromcsv(s, encoding='utf-8', errors='ignore', delimiter=',')),
+          ('fromtsv', 'tsv', lambda s: etl.fromtsv(s)),
+          ('frompickle', 'p', lambda s: etl.frompickle(s)),
+          ('fromtext', 'txt', lambda s: etl.fromtext(s)), ('fromtext(strip=False)', 'txt', lambda s: etl.fromtext(s, strip=False)),
+          ("fromtext(strip='x')", 'txt', lambda s: etl.fromtext(s, strip='x')), ('fromtext(header=, encoding)', 'txt', lambda s: etl.fromtext(s, header=['l'], encoding='utf-8')),
+          ("fromtext(strip=False, errors)", 'txt', lambda s: etl.fromtext(s, strip=False, errors='replace')),
+          ('fromjson(lines=True)', 'jsonl', lambda s: etl.fromjson(s, lines=True)),
+          ('fromcsv |> convert |> select', 'csv', lambda s: etl.select(etl.convert(etl.fromcsv(s), 'f', int), lambda r: r[0] % 2 == 0))]
+    for name, ext, mk in ex:
+        res = []
+        for n in sizes:
+            src = CountingSource(os.path.join(tmp, 'x%d%s%s' % (n, '' if ext.startswith('_') else '.', ext)))
+            v = mk(src)
+            cons = (src.counter[0], src.opens)
+            per_k = []
+            for k in (1, 5, 40):
+                before = src.counter[0]
+                rows = list(itertools.islice(iter(v), k + 1))
+                per_k.append(src.counter[0] - before)
+                if len(rows) != k + 1:
+                    per_k.append(-1)
+            res.append((cons, per_k))
+        chk.count(('extractor', name))
+        chk.replayed += 1
+        sig = {'op': name.split('(')[0], 'kind': 'extractor'}
+        if res[0][0][0] or res[1][0][0]:
+            chk.violation(dict(sig, clause='construction'), '%s: constructing the view read %d / %d bytes of the source' % (name, res[0][0][0], res[1][0][0]),
+                          {'kind': 'extractor', 'name': name})
+        elif res[0][1] != res[1][1] or max(res[1][1]) > 4 * 65536 or -1 in res[1][1]:
+            chk.violation(dict(sig, clause='length-dependence'),
+                          '%s: bytes read for 1, 5, 40 rows are %r on a %d-row file and %r on a %d-row file (must be equal and within a few buffers)'
+                          % (name, res[0][1], sizes[0], res[1][1], sizes[1]), {'kind': 'extractor', 'name': name})
 
 
 def check_sequences(chk):
@@ -275,6 +368,8 @@ def run(tier, seed):
     check_pipelines(chk, cases, full)
     check_consumers(chk)
     check_sequences(chk)
+    with common.private_tmp() as tmp:
+        check_extractors(chk, tmp)
     traces = record_traces(2000 if full else 300, seed)
     validate_traces(chk, traces, seed)
     chk.exhaustive = True
